@@ -16,7 +16,7 @@ LEVEL_TEXT = ("Generated operation histories over 2-3 decoders and 2 encoders al
               "must equal the result on a fresh decoder of the same configuration that saw only the history's address claims; replaying "
               "the history on two fresh sets of instances must give identical outputs. Thorough adds a coverage-guided atheris target.")
 TECHNIQUE = "fresh-instance differential + replay determinism over generated multi-instance histories (Hypothesis; atheris fuzz target in thorough)"
-RULE = ("histories of 5..40 operations on 2-3 decoders / 2 encoders; oracle: probe(used decoder) == probe(fresh decoder fed the same claims), "
+RULE = ("histories of 5..40 operations (valid / truncated / unknown / unmatched frames, malformed lines, bad USB packets, new instances with caller-owned lists mutated afterwards, encoder calls, time passing) on 2-3 decoders / 2 encoders, probes: single frame, multi-definition single and fast PGNs, 129029; plus an aged-decoder differential (a decoder that has seen every definition vs a fresh one, all definitions); oracle: probe(used decoder) == probe(fresh decoder fed the same claims), "
         "outputs(history) == outputs(history replayed on fresh instances), caller-owned lists and constructor defaults unchanged; "
         "non-trivial = history with >= 1 rejected/ignored input and >= 2 instances used; distinct = history")
 ASSUMPTIONS = [
